@@ -1,10 +1,10 @@
 /-
   Line-protocol replay of M5 (ThreadTree).  Trace acceptance at the granularity of Model/ThreadTree.lean.
     run <id> m5
-    call <t> spawn | stop <u> | join <u> <till|-> | join_all <u,u,..> <till|-> | release <u> | finish ok <v> | finish fail | main_stop
+    call <t> spawn | spawn_orphan | stop <u> | join <u> <till|-> | join_all <u,u,..> <till|-> | release <u> | finish ok <v> | finish fail | main_stop
     env fire <x>
     step <t> all+ <u> | all- <u> | snap <u> [c,..] | reg <c> <p> | unreg <c> <p> <True|False> | clear <p> | peek <p>
-             | pstop <u> | stopped <u> | joiner <u> | waited <u> <True|False> | start <c>
+             | pstop <u> | stopped <u> | joiner <u> | waited <u> <True|False> | start <c> | snapall [u,..]
     ret <t> <kind> <result>
     end done|stuck <t>..
   Thread-local model steps (label tau) are taken eagerly after each visible step of the same thread.
@@ -30,6 +30,7 @@ def labelShow : Label → String
   | .fireJoiner u => s!"joiner {u}"
   | .waited u b => s!"waited {u} " ++ showBool b
   | .startThread c => s!"start {c}"
+  | .snapAll res => "snapall " ++ showList res
   | .tau => "tau"
 
 def retShow : Ret → String
@@ -92,6 +93,7 @@ def feed (m : Sim) (ws : List String) : Except String Sim :=
     | some t =>
       let op? : Option Op := match rest with
         | ["spawn"] => some .spawn
+        | ["spawn_orphan"] => some .spawnOrphan
         | ["stop", u] => u.toNat?.map Op.stop
         | ["join", u, tl] => match u.toNat?, parseTill tl with
           | some u, some tl => some (.join u tl)
@@ -113,6 +115,7 @@ def feed (m : Sim) (ws : List String) : Except String Sim :=
           let (s'', k) := closure 64 s' t
           let ths := match op with
             | .spawn => insertSorted m.s.nextId (insertSorted t m.threads)
+            | .spawnOrphan => insertSorted m.s.nextId (insertSorted t m.threads)
             | _ => insertSorted t m.threads
           .ok { m with s := s'', threads := ths, steps := m.steps + k }
   | ["env", "fire", x] => match x.toNat? with
